@@ -7,7 +7,7 @@
 (* past the end of the source: `unwrap_unchecked(None)`) and `bad` (the    *)
 (* value handed to `char::from_u32_unchecked` is not a scalar value).      *)
 (***************************************************************************)
-EXTENDS Naturals, Sequences
+EXTENDS Naturals, Sequences, FiniteSets, SequencesExt
 
 IsScalar(c) == (c >= 0 /\ c <= 55295) \/ (c >= 57344 /\ c <= 1114111)
 
@@ -54,21 +54,29 @@ DecodeStep(b, i) ==
             c  == (first % 8) * 262144 + c3
         IN [end |-> i + 4, cp |-> c, oob |-> i + 4 > n, bad |-> ~IsScalar(c)]
 
-\* the symbol stream of a whole byte text: sequence of <<end offset, code point>>
-RECURSIVE DecodeFrom(_, _)
-DecodeFrom(b, i) ==
-  IF i >= Len(b) THEN <<>>
-  ELSE LET d == DecodeStep(b, i) IN <<<<d.end, d.cp>>>> \o DecodeFrom(b, d.end)
-DecodeAll(b) == DecodeFrom(b, 0)
+\* The symbol stream of a whole UTF-8 text: sequence of <<end offset, code point>>, i.e. what
+\* repeated next() calls of the decoder return.  In valid UTF-8 a character starts exactly at the
+\* bytes that are not continuation bytes (0x80-0xBF), so the stream is DecodeStep applied at every
+\* such offset; DecodeSafe checks that each step ends where the next one starts (the decoder
+\* really is a sequential reader) and never over-reads or fabricates a non-scalar.
+CharStarts(b) == {i \in 0..(Len(b) - 1) : b[i + 1] < 128 \/ b[i + 1] > 191}
+StartSeq(b) == SortSeq(SetToSeq(CharStarts(b)), LAMBDA x, y : x < y)
+DecodeAll(b) ==
+  LET st == StartSeq(b) IN
+  <<>> \o [k \in 1..Len(st) |-> LET d == DecodeStep(b, st[k]) IN <<d.end, d.cp>>]
 
-RECURSIVE DecodeSafeFrom(_, _)
-DecodeSafeFrom(b, i) ==
-  IF i >= Len(b) THEN TRUE
-  ELSE LET d == DecodeStep(b, i) IN ~d.oob /\ ~d.bad /\ DecodeSafeFrom(b, d.end)
-DecodeSafe(b) == DecodeSafeFrom(b, 0)
+DecodeSafe(b) ==
+  LET st == StartSeq(b) IN
+  /\ (Len(b) > 0 => Len(st) > 0 /\ st[1] = 0)
+  /\ \A k \in 1..Len(st) :
+        LET d == DecodeStep(b, st[k]) IN
+        /\ ~d.oob /\ ~d.bad
+        /\ d.end = (IF k = Len(st) THEN Len(b) ELSE st[k + 1])
 
 \* the symbol stream of a byte-wise text: <<i, b[i]>>
-ByteSyms(b) == [i \in 1..Len(b) |-> <<i, b[i]>>]
+\* (the concatenation forces TLC to build a concrete tuple instead of a lazily evaluated function:
+\* Len and indexing are then O(1))
+ByteSyms(b) == <<>> \o [i \in 1..Len(b) |-> <<i, b[i]>>]
 
 \* character boundaries of a UTF-8 byte text (C08)
 CharBoundaries(b) == {0} \cup {DecodeAll(b)[k][1] : k \in 1..Len(DecodeAll(b))}
